@@ -114,7 +114,13 @@ func parseCommaRules(input string) ([]rule, error) {
 	aare := false
 	canHaveInlineComment := false
 	size := len(input)
+	escaped := false
 	for idx, r := range input {
+		if !comment && (escaped || r == '\\') {
+			// An escaped character is a plain character (a\[b), whatever it is
+			escaped = !escaped
+			continue
+		}
 		switch r {
 		case '"':
 			if !comment {
@@ -220,7 +226,14 @@ func tokenizeRule(str string) []string {
 	if inHeader && len(str) > 2 && str[0:2] == VARIABLE.Tok() {
 		isVariable = true
 	}
+	escaped := false
 	for _, r := range str {
+		if escaped || r == '\\' {
+			// An escaped character is a plain character, whatever it is
+			escaped = !escaped
+			currentToken.WriteRune(r)
+			continue
+		}
 		switch {
 		case (r == ' ' || r == '\t') && len(blockStack) == 0 && !quoted:
 			// Split on space/tab if not in a block or quoted
